@@ -78,7 +78,7 @@ GATES = {
 
 TIERS = {
     "quick": dict(traces=960, max_events=60, mc_timeout=240, batch=10),
-    "thorough": dict(traces=8000, max_events=200, mc_timeout=1500, batch=40),
+    "thorough": dict(traces=3000, max_events=150, mc_timeout=1500, batch=40),
 }
 
 
